@@ -357,6 +357,21 @@ Proof.
 Qed.
 End Reply.
 
+(* ---- IrcMsg(msg=m) alone is a pure copy ---- *)
+Lemma ctor_copy m : copy_msg m = m.
+Proof. destruct m. reflexivity. Qed.
+
+Lemma ctor_copy_fields m :
+  m_prefix (copy_msg m) = m_prefix m /\ m_command (copy_msg m) = m_command m
+  /\ m_args (copy_msg m) = m_args m /\ m_tags (copy_msg m) = m_tags m.
+Proof. rewrite ctor_copy. auto. Qed.
+
+Lemma ctor_copy_line m : one_line (serialize (copy_msg m)) <-> one_line (serialize m).
+Proof. rewrite ctor_copy. reflexivity. Qed.
+
+Lemma ctor_copy_wf m : wf_outb (copy_msg m) = wf_outb m.
+Proof. rewrite ctor_copy. reflexivity. Qed.
+
 (* ---- the msg= branch checks nothing ---- *)
 Definition smuggle_base : msg := Msg [] [] gen.T06.CMD_PRIVMSG [[35; 99]; [97]].
 Definition smuggle_text : str := [97; CR; LF; 81; 85; 73; 84].   (* "a\r\nQUIT" *)
